@@ -33,7 +33,7 @@ import argparse, hashlib, json, multiprocessing, os, re, shutil, subprocess, sys
 
 HERE = os.path.dirname(os.path.abspath(__file__))
 VERIF = os.path.dirname(HERE)
-TRANSLATE = os.path.join(VERIF, "translate")
+TRANSLATE = os.environ.get("VERIF_AUDIT_TRANSLATE") or os.path.join(VERIF, "translate")      # (override: audit another version of the translators)
 REPO = os.environ.get("VERIF_REPO", "/repo")
 COPY_DIRS = ["src", "python/alpaqa/casadi_generator"]          # everything the translators read lives here
 IDC = "\\w\u0300-\u036f"          # identifier characters (combining accents: x-hat is written x + U+0302)
